@@ -336,8 +336,10 @@ def match_arms(m):
 def key_name(k):
     if k == "_":
         return "_"
-    if k[0] in ("lit", "path"):
+    if k[0] == "path":
         return k[1]
+    if k[0] == "lit":
+        return k[1] if isinstance(k[1], str) else str(k[1]).lower() if isinstance(k[1], bool) else str(k[1])
     return str(k)
 
 
@@ -526,3 +528,37 @@ def weak_orderings(names):
             d = dict(base)
             d[first] = slot
             yield d
+
+
+# ------------------------------------------------------------------------------------------
+# format!/write! templates (the compiler encodes the template as a byte string: <len> bytes ... 0xC0 = argument)
+
+def fmt_templates(root):
+    """decoded templates of every format_args! expansion under root, arguments rendered as {}"""
+    out = []
+    for x in walk_exprs(root):
+        if x["k"] == "Lit" and x.get("lk") == "bytestr" and x.get("exp") and "bytes" in x:
+            b = x["bytes"]
+            i = 0
+            s = ""
+            ok = True
+            while i < len(b):
+                c = b[i]
+                if c == 0:
+                    break
+                if c < 0x80:
+                    s += bytes(b[i + 1:i + 1 + c]).decode("utf-8", "replace")
+                    i += 1 + c
+                elif c == 0xC0:
+                    s += "{}"
+                    i += 1
+                else:
+                    ok = False
+                    break
+            if not ok:
+                s = "".join(ch if ch != "�" else "{}" for ch in x["v"] if ord(ch) >= 32)
+            out.append((s, x))
+        elif x["k"] == "Lit" and x.get("lk") == "str" and x.get("exp") and x.get("mac") in (
+                "format", "write", "writeln", "print", "println", "eprint", "eprintln", "panic"):
+            out.append((x["v"], x))
+    return out
